@@ -185,6 +185,21 @@ func (f *gov) genAdmission(s *sc) {
 		if r.Rng.Bool() {
 			s.do("refresh %s", f.w.allMembersOperator())
 		}
+		if h%2 == 0 {
+			// directed: submit while registered, approved removal (list with repeated addresses), submit again
+			a, b, c := rel[0], rel[1], rel[2]
+			s.do("rlreg %s %s %s,%s", owner.hex(), owner.hex(), a.hex(), b.hex())
+			s.fullRound(func(sg, cl string) string { return fmt.Sprintf("rlappr %s 0 %s", sg, cl) })
+			s.do("admit %s", a.hex())
+			s.do("admit %s", b.hex())
+			s.do("admit -")
+			s.do("rlrm %s %s %s,%s,%s,%s", owner.hex(), owner.hex(), a.hex(), b.hex(), a.hex(), c.hex())
+			s.fullRound(func(sg, cl string) string { return fmt.Sprintf("rlapprrm %s 0 %s", sg, cl) })
+			s.do("admit %s", a.hex())
+			s.do("admit %s", b.hex())
+			s.do("admit %s,%s", a.hex(), b.hex())
+			s.do("admit -")
+		}
 		for i := 0; i < 30; i++ {
 			x := r.Rng.Intn(100)
 			switch {
@@ -196,7 +211,7 @@ func (f *gov) genAdmission(s *sc) {
 				s.do("rlreg %s %s %s", owner.hex(), owner.hex(), strings.Join(l, ","))
 			case x < 30:
 				var l []string
-				for j := 0; j < 1+r.Rng.Intn(2); j++ {
+				for j := 0; j < 1+r.Rng.Intn(4); j++ {
 					l = append(l, s.pick(rel).hex())
 				}
 				s.do("rlrm %s %s %s", owner.hex(), owner.hex(), strings.Join(l, ","))
